@@ -12,6 +12,8 @@ RULE = ("chains of 1e3 / 1e4 / 5e4 (thorough 2e5) sequential ops of mixed kinds 
         "(WeakSet registry, after gc.collect()) sampled every 10% - it must not grow; weak references to operands of untracked results must "
         "die. distinct key = (scenario, size, op mix seed); non-trivial = size >= 1000")
 ASSUMPTIONS = ["linearity is decided on counted Python calls, never on wall-clock time; the wall-clock watchdog only makes a run inconclusive",
+               "thorough tier only: C-level super-linear work (invisible to call counts) is decided on CPU time (time.thread_time, gc disabled) of backward at 1e5 vs 4e5 ops; "
+               "a ratio above 7 (linear: 4) is a violation only if a second independent measurement reproduces it",
                "bounded memory is decided on the number of live Tensor objects at quiescent points"]
 SHARD_TIMEOUT = {"quick": 900, "thorough": 3600}
 SHARDS_PER_JOB = 1
